@@ -25,35 +25,13 @@ def _dtype(o):
 
 
 def classify(pid, name, case, msg):
+    """The six regions this module had (in-place operator across formats, multi-output ufuncs, the out= trial call on
+    uninitialised memory, float16 GCXS indexing, broadcast_to(0-d, []), concatenate(axis=None) with a DOK member) are repaired
+    in /repo (`fixed:` lines in KNOWN_FINDINGS.txt, commits 83da390, 125c19e, ba56927, fd01003, f7a57e8, f923552): nothing is
+    suppressed any more.  Only the listed DOK finding of C02 is shared with C02's own cases."""
     ops = case.get("operands") or []
     args = case.get("args") or {}
-    op = case.get("op", name)
-    if pid == "C08":
-        # broadcast_to of a 0-d array to the shape [] given as a LIST: `shape == x.shape` compares a list with a tuple, the general path indexes an empty tuple
-        if (op in ("sparse.broadcast_to", "x.broadcast_to") and args.get("shape") == [] and args.get("shape_is_list") and ops and _shape(ops[0]) == []
-                and "IndexError: tuple index out of range" in msg):
-            return "F-c08-broadcast-to-0d-list-shape"
-    if pid == "C09":
-        if (op in ("concatenate", "concat") and args.get("axis") is None and args.get("pass_axis") and any(_fmt(o) == "dok" for o in ops)
-                and "AttributeError: 'DOK' object has no attribute 'flatten'" in msg):
-            return "F-c09-concatenate-none-dok"
-    if pid == "C01":
-        # in-place operator: the result is computed in another format than the left operand's and its attributes are copied into the left operand
-        if (" = y" not in op and op.startswith("x ") and op.endswith("= y") and op not in ("x == y", "x != y", "x <= y", "x >= y") and len(ops) == 2
-                and _fmt(ops[0]) in ("gcxs", "dok") and _fmt(ops[1]) in ("coo", "gcxs", "dok") and _fmt(ops[1]) != _fmt(ops[0])
-                and msg.startswith("the call returned an inconsistent") and ("'coords'" in msg)):
-            return "F-c01-inplace-other-format"
-        # out= / in-place: the request is validated by calling the ufunc on UNINITIALISED one-element arrays; integer power then raises whenever the
-        # leftover "exponent" is negative (depends on the allocator's leftovers: sporadic)
-        if (op == "x **= y" and len(ops) == 2 and _dtype(ops[0]) and _dtype(ops[0])[0] in "iu" and (_dtype(ops[1]) or "")[:1] in ("i", "u")
-                and "raised ValueError: Integers to negative integer powers are not allowed" in msg):
-            return "F-c01-out-test-call-uninitialised"
-        if op in ("divmod(x, y)", "np.modf(x)") and "AttributeError: 'tuple' object has no attribute 'ndim'" in msg:
-            return "F-c01-multi-output-ufunc"
-    if pid == "C02":
-        if case.get("format") == "gcxs" and ops and _dtype(ops[0]) == "float16" and _fmt(ops[0]) == "gcxs" and "raised NotImplementedError: float16" in msg:
-            return "F-c02-gcxs-float16-getitem"
-        if case.get("format") == "dok" and ops:
-            # the listed DOK finding of C02 (index arrays for fewer than all dimensions): same region predicate as for C02's own cases
-            return findings._classify_c02(name, {"format": "dok", "index": args.get("index", []), "shape": _shape(ops[0]) or []}, msg)
+    if pid == "C02" and case.get("format") == "dok" and ops:
+        # the listed DOK finding of C02 (index arrays for fewer than all dimensions): same region predicate as for C02's own cases
+        return findings._classify_c02(name, {"format": "dok", "index": args.get("index", []), "shape": _shape(ops[0]) or []}, msg)
     return None
